@@ -324,6 +324,31 @@ def _elem_size(prog, coll):
     return None
 
 
+def _window_item_len(prog, f, op):
+    """N if the operand is (a reference to) the element of an iteration over slice.windows(N) / chunks_exact(N) with constant N, else None"""
+    import iters as IT
+    parent = prog.fn(norm_fn(f.path)) if f.path != norm_fn(f.path) else f
+    if parent is None:
+        return None
+    for it in IT.iterations(prog, parent):
+        if it.body is not f:
+            continue
+        try:
+            ep = it.elem_path(op)
+        except Exception:
+            ep = None
+        if ep != ():
+            continue
+        ch = it.chain()
+        for nm in ("windows", "chunks_exact"):
+            wt = IT.chain_get(ch, nm)
+            if wt is not None and [n for n in IT.chain_names(ch) if n not in (nm, "iter", "into_iter")] == []:
+                c = an.const_of(it.parent, wt["args"][1])
+                if c is not None and isinstance(c.get("val"), int) and c["val"] > 0:
+                    return c["val"]
+    return None
+
+
 def auto_discharge(f, site, prog=None):
     """returns a reason string if the site is discharged by a local rule, else None"""
     t = site.term
@@ -342,6 +367,16 @@ def auto_discharge(f, site, prog=None):
             ic, lc = an.const_of(f, m["index"]), an.const_of(f, m["len"])
             if ic is not None and lc is not None and isinstance(ic.get("val"), int) and isinstance(lc.get("val"), int) and ic["val"] < lc["val"]:
                 return "constant index %d into fixed-size array of length %d" % (ic["val"], lc["val"])
+        if k == "BoundsCheck" and prog is not None:
+            # w[K] where w is an item of slice.windows(N) / chunks_exact(N) with constants K < N (every item has exactly N elements)
+            ic = an.const_of(f, m["index"])
+            ll = op_local(m["len"])
+            dl = f.single_def(ll) if ll is not None else None
+            if ic is not None and isinstance(ic.get("val"), int) and dl and dl[0] == "assign" and dl[3]["k"] in ("unop", "len") :
+                src = dl[3].get("operand") or dl[3].get("op")
+                n = _window_item_len(prog, f, src) if src is not None else None
+                if n is not None and ic["val"] < n:
+                    return "constant index %d into an item of windows(%d) / chunks_exact(%d)" % (ic["val"], n, n)
         if k == "Overflow" and m["op"] == "Sub":
             g = guarded_sub(f, site.bb, m["l"], m["r"])
             if g:
@@ -361,6 +396,10 @@ def auto_discharge(f, site, prog=None):
             return "compiler-inserted debug UB check on a pointer freshly returned by the allocator (vec!/box expansion); absent in release builds"
     if site.kind == "pset":
         p = site.detail
+        if p.endswith(("::windows", "::chunks_exact", "::chunks")) and len(t["args"]) == 2:
+            c = an.const_of(f, t["args"][1])
+            if c is not None and isinstance(c.get("val"), int) and c["val"] > 0:
+                return "constant non-zero size %d" % c["val"]
         if p in ("alloc::vec::Vec::<T>::with_capacity", "alloc::vec::Vec::<T, A>::with_capacity_in"):
             # with_capacity(x.len()) for an existing in-memory collection x whose elements are at least as large as the new ones: x already
             # occupies len * size bytes (< isize::MAX), so the new capacity computation cannot overflow (allocation failure aborts, it does not panic)
@@ -456,11 +495,53 @@ def collect_sites(prog, fns):
     return res, auto
 
 
+def rebalance(chk, prog, res, rows):
+    """re-key sites whose spelling or place changed without changing what they are (see the comments inside)"""
+    # `fs[K]` is a call of Index::index when fs is a Vec and a BoundsCheck assert when it is the slice view of that vector (the vector
+    # handed to a helper as `&fs`): the same reviewed site either way; the reviewed multiplicity bounds both spellings together
+    for (fp, sig) in sorted(res):
+        if re.match(r"^BoundsCheck\(idx=c\d+\)$", sig) and (fp, sig) not in rows:
+            alts = [k for k in rows if k[0] == fp and re.match(r"^call:index<Vec<[^>]*>>\[usize\]$", k[1])]
+            if len(alts) == 1:
+                res.setdefault(alts[0], []).extend(res.pop((fp, sig)))
+    # code motion across one call edge: an expression hoisted from a callee into its caller (or pushed down) keeps its reviewed row, as
+    # long as the row's function has that many fewer sites of the signature now (the row is vacated, not shared with a new site)
+    nbrs = None
+    moves = []
+    for (fp, sig) in sorted(res):
+        have = rows[(fp, sig)]["count"] if (fp, sig) in rows else 0
+        excess = len(res[(fp, sig)]) - have
+        if excess <= 0:
+            continue
+        if nbrs is None:
+            nbrs = {}
+            for g_ in prog.fn_list:
+                a_ = norm_fn(g_.path)
+                for b_, t_ in g_.calls():
+                    for h_ in prog.call_targets(g_, t_):
+                        c_ = norm_fn(h_.path)
+                        if c_ != a_:
+                            nbrs.setdefault(a_, set()).add(c_)
+                            nbrs.setdefault(c_, set()).add(a_)
+        cands = [nb for nb in sorted(nbrs.get(fp, ())) if (nb, sig) in rows and len(res.get((nb, sig), [])) + excess <= rows[(nb, sig)]["count"]]
+        if cands:
+            moves.append(((fp, sig), cands, excess))
+    for (fp, sig), cands, excess in moves:
+        sites_ = res[(fp, sig)][-excess:]
+        res[(fp, sig)] = res[(fp, sig)][:-excess]
+        if not res[(fp, sig)]:
+            del res[(fp, sig)]
+        for nb in cands:
+            res.setdefault((nb, sig), []).extend(sites_)
+        chk.extra.setdefault("C17-moved-sites", []).append("%s `%s` judged by the row(s) of %s" % (fp, sig, cands))
+
+
 def inventory(chk, rule, fns, rows, scope_desc):
     prog = chk.prog
     res, auto = collect_sites(prog, fns)
     for s, r in auto:
         chk.ob(rule, "auto/%s/%s#%d" % (s.fn.path, s.sig, sum(1 for o in chk.obs if o["key"].startswith("auto/%s/%s#" % (s.fn.path, s.sig)))), True, s.loc(), "auto-discharged: " + r)
+    rebalance(chk, prog, res, rows)
     for (fp, sig), sites in sorted(res.items()):
         row = rows.get((fp, sig))
         loc = sites[0].loc()
@@ -1015,6 +1096,7 @@ def c19bcd(chk, rows):
         # ---- totality of next / size_hint
         fns = closure_of(prog, [nxt.path, sh.path])
         res, auto = collect_sites(prog, fns)
+        rebalance(chk, prog, res, rows)
         bad = []
         for (fp, sig), sites in sorted(res.items()):
             row = rows.get((fp, sig))
